@@ -1,5 +1,83 @@
-(** C01 monitor (placeholder: agreement only until the monitor is written). *)
+(** C01 monitor: collision protection evaluated on what the implementation did in one pass
+    (harness mode "phase"), together with PhaseCorr.agree. *)
 From Coq Require Import List NArith ZArith Bool.
-From PKO Require Import Util Base Owner Api Phase.
+From PKO Require Import Util Base Owner OwnerProofs Api Phase AdoptionProofs AdoptProofs.
 From PKOCorr Require Import PhaseCorr.
-Definition judge (c : pcase) : bool * bool := (agree c, true).
+Import ListNotations.
+Local Open Scope N_scope.
+
+Section Mon.
+  Variable c : pcase.
+  Let s := flavor_strat (pc_flavor c).
+  Let ow := pc_owner c.
+  Let key (p : pobj) := desired_key ow p.
+  Let perm (o : obj) (p : pobj) := permitted s (pc_force c) ow o (pc_prev c) (po_cp p).
+  Let quiet := is_nil (pc_between c).     (* no third party between read and write *)
+
+  (** m1: every write is justified by the version the pass read (rollout: absent, already controlled,
+      or adoption permitted; teardown: only controlled objects are deleted). *)
+  Definition ev_okb (e : ev) : bool :=
+    if pc_teardown c then
+      match e with
+      | EDelete _ rd _ _ _ _ => is_controller s (ow_id ow) rd
+      | ERelease _ _ _ _ => true          (* governed by C05 *)
+      | EApply _ _ _ _ => false
+      end
+    else
+      match e with
+      | EApply k rd _ _ =>
+          negb (ow_paused ow) &&
+          existsb (fun p => okey_eqb (key p) k &&
+                            match rd with None => true | Some o => is_controller s (ow_id ow) o || perm o p end) (pc_objects c)
+      | _ => false
+      end.
+  Definition m1 : bool := forallb ev_okb (pc_events c).
+
+  (** m2: an existing object that is not controlled and may not be adopted is identical afterwards and
+      named by no request. *)
+  Definition m2 : bool :=
+    negb quiet || pc_teardown c ||
+    forallb (fun p =>
+      match lookup (key p) (pc_store c) with
+      | None => true
+      | Some o =>
+          is_controller s (ow_id ow) o ||
+          existsb (fun q => okey_eqb (key q) (key p) && perm o q) (pc_objects c) ||
+          (option_eqb obj_eqb (lookup (key p) (pc_post c)) (Some o) &&
+           forallb (fun e => negb (okey_eqb (ev_key e) (key p))) (pc_events c))
+      end) (pc_objects c).
+
+  Definition must_refuseb (p : pobj) (o : obj) : bool :=
+    negb (is_controller s (ow_id ow) o) && negb (perm o p) && negb (newer ow o) && negb (rev_unparsable o).
+
+  (** m3: a refusal is reported (the call returns a collision error, which the controller turns into
+      Available=False/CollisionDetected) and a collision error is only returned for a refusal. *)
+  Definition m3 : bool :=
+    negb quiet || pc_teardown c || ow_paused ow || negb (nodupb okey_eqb (map key (pc_objects c))) ||
+    match pc_res c with
+    | OOk _ _ => forallb (fun p => match lookup (key p) (pc_store c) with Some o => negb (must_refuseb p o) | None => true end) (pc_objects c)
+    | OErr (Some ErrNotPrevious) | OErr (Some ErrRevCollision) =>
+        existsb (fun p => match lookup (key p) (pc_store c) with Some o => must_refuseb p o | None => false end) (pc_objects c)
+    | _ => true
+    end.
+
+  (** m4: a permitted adoption is carried out: after a completed pass the owner controls the object. *)
+  Definition m4 : bool :=
+    negb quiet || pc_teardown c || ow_paused ow || negb (nodupb okey_eqb (map key (pc_objects c))) ||
+    match pc_res c with
+    | OOk _ _ =>
+        forallb (fun p =>
+          match lookup (key p) (pc_store c) with
+          | Some o =>
+              is_controller s (ow_id ow) o || negb (perm o p) || negb (obj_wfb s (ow_id ow) o) ||
+              negb (match s with Native => validate_owner (ow_id ow) (k_ns (key p)) | Annot => true end) ||
+              match lookup (key p) (pc_post c) with Some o' => is_controller s (ow_id ow) o' | None => false end
+          | None => true
+          end) (pc_objects c)
+    | _ => true
+    end.
+
+  Definition monitor : bool := m1 && m2 && m3 && m4.
+End Mon.
+
+Definition judge (c : pcase) : bool * bool := (agree c, monitor c).
